@@ -69,26 +69,174 @@ type shadow struct {
 
 func isSHA384(id uint16) bool { return contains(tls.ZVCipherSuitesTLS13SHA384(), id) }
 
+// seqRun is the state carried through the connections of one sequence (`seq` and `lsn` lines): the client's session
+// cache, the harness's own record of what it holds, and the verdict collected so far.
+type seqRun struct {
+	n          int
+	cache      *recCache
+	outs, tags []string
+	viol       string
+	sh         *shadow // what the cache holds before the current connection
+	prevIdent  string
+	prevDone   bool
+	prevTix    bool
+}
+
+func newSeqRun(n int) *seqRun {
+	return &seqRun{n: n, cache: &recCache{m: map[string]*tls.ClientSessionState{}}}
+}
+
+func (q *seqRun) addViol(i int, s string) {
+	if q.viol == "" {
+		q.viol = fmt.Sprintf("connection %d of %d: %s", i+1, q.n, s)
+	}
+}
+
+func (q *seqRun) out() zv.Out {
+	q.tags = append(q.tags, fmt.Sprintf("seq/len=%d", q.n))
+	return zv.Out{Go: strings.Join(q.outs, " | "), Viol: q.viol, Tags: q.tags}
+}
+
+// conn describes one connection of a sequence for seqRun.step.
+type conn struct {
+	ident     string             // identity of the pair of configurations in force ("unchanged configurations resume" compares it)
+	cfg       negCfg             // the client fields and the server fields IN FORCE for this connection
+	ccfg      *tls.Config        // client configuration (the cache is added by step)
+	scfg      *tls.Config        // what is handed to tls.Server (the listener's Config)
+	eff       func() *tls.Config // the server Config in force once the handshake ran (per-client Config, if any)
+	useCache  bool
+	tkeys     []int // the ticket keys the documented rules give this connection (empty: none)
+	ticketsOn bool  // SessionTicketsDisabled is false on the server Config in force
+}
+
+// step runs connection i and evaluates the property's sentences on it.
+func (q *seqRun) step(i int, k conn) {
+	cfg, ccfg, useCache, tkeys := k.cfg, k.ccfg, k.useCache, k.tkeys
+	cache := q.cache
+	sh := q.sh
+	addViol := func(i int, s string) { q.addViol(i, s) }
+	if useCache {
+		ccfg.ClientSessionCache = cache
+	}
+	p0, d0 := cache.counts()
+	res := tlsrig.Handshake(ccfg, k.scfg, tlsrig.Opts{KeepOpen: true, Timeout: 12 * time.Second})
+	scfg := k.eff()
+	vd := judge(cfg, ccfg, scfg, res)
+	appData := ""
+	if vd.done {
+		// one byte of application data server → client: the record layer works with the (possibly resumed)
+		// keys, and the client gets to process post-handshake messages (the TLS 1.3 NewSessionTicket)
+		done := make(chan struct{})
+		go func() {
+			defer close(done)
+			res.Server.Conn.Write([]byte{0x5a})
+		}()
+		res.Client.Conn.SetReadDeadline(time.Now().Add(8 * time.Second))
+		var b [1]byte
+		if k, err := res.Client.Conn.Read(b[:]); err != nil || k != 1 || b[0] != 0x5a {
+			appData = fmt.Sprintf("the handshake completed but application data does not flow: n=%d err=%v", k, err)
+		}
+		<-done
+	}
+	res.Client.Conn.Close()
+	res.Server.Conn.Close()
+	if vd.viol != "" {
+		if !vd.done && k.ticketsOn && len(tkeys) == 0 && strings.HasPrefix(vd.viol, "configurations share version") {
+			// the listener's Config disables tickets, the per-client Config enables them and brings no keys
+			addViol(i, "server Config in force has session tickets enabled but the documented key rule yields no ticket key (listener Config disables tickets): "+vd.viol)
+		}
+		addViol(i, vd.viol)
+	}
+	if appData != "" {
+		addViol(i, appData)
+	}
+	p1, d1 := cache.counts()
+	ev := "k"
+	if p1 > p0 {
+		ev = "p"
+	} else if d1 > d0 {
+		ev = "d"
+	}
+	for _, t := range vd.tags {
+		if !strings.HasPrefix(t, "key=") {
+			q.tags = append(q.tags, "seq/"+t)
+		}
+	}
+	if vd.done {
+		c, s := res.Client.State, res.Server.State
+		r := 0
+		if c.DidResume {
+			r = 1
+		}
+		q.outs = append(q.outs, fmt.Sprintf("%s r=%d t=%s", vd.out, r, ev))
+		if c.DidResume != s.DidResume {
+			addViol(i, fmt.Sprintf("endpoints disagree on the resumption status: client DidResume=%v server DidResume=%v", c.DidResume, s.DidResume))
+		}
+		if s.DidResume || c.DidResume {
+			q.tags = append(q.tags, fmt.Sprintf("seq/resumed/v=%x", c.Version))
+			// a resumed connection continues the session the client's cache holds: authentic ticket under a key
+			// the server lists NOW, same version, same suite (TLS 1.3: same KDF hash); that the suite is offered by
+			// the client and enabled by the server's CURRENT configuration is judge()'s "enabled on both sides"
+			switch {
+			case sh == nil:
+				addViol(i, "connection resumed although the client's cache held no session")
+			case !useCache:
+				addViol(i, "connection resumed although this client configuration has no session cache")
+			case !k.ticketsOn:
+				addViol(i, "server resumed a session although its configuration disables session tickets")
+			case !containsInt(tkeys, sh.key):
+				addViol(i, fmt.Sprintf("server resumed a ticket sealed under key %d, its current keys are %v", sh.key, tkeys))
+			case sh.vers != c.Version:
+				addViol(i, fmt.Sprintf("resumed connection has version %x, the session was established with %x", c.Version, sh.vers))
+			case c.Version != tls.VersionTLS13 && sh.suite != c.CipherSuite:
+				addViol(i, fmt.Sprintf("resumed connection uses suite %x, the session was established with %x", c.CipherSuite, sh.suite))
+			case c.Version == tls.VersionTLS13 && isSHA384(sh.suite) != isSHA384(c.CipherSuite):
+				addViol(i, fmt.Sprintf("TLS 1.3 connection with suite %x resumed a PSK issued under suite %x (different hash)", c.CipherSuite, sh.suite))
+			case c.Version != tls.VersionTLS13 && !fitsKey(c.CipherSuite, cfg.key, overlap(ccfg.CurvePreferences, scfg.CurvePreferences)):
+				addViol(i, fmt.Sprintf("server resumed suite %x, which is not usable with its current %s key / curve configuration", c.CipherSuite, cfg.key))
+			}
+		} else {
+			q.tags = append(q.tags, fmt.Sprintf("seq/full/v=%x", c.Version))
+			if sh != nil && useCache {
+				q.tags = append(q.tags, "seq/fallback-to-full")
+			}
+		}
+		// unchanged configurations on both sides: the session just established (or continued) must be resumed
+		if i > 0 && k.ident == q.prevIdent && q.prevDone && q.prevTix && !(c.DidResume && s.DidResume) {
+			addViol(i, "same configurations as the previous connection (cache and tickets on), yet the session was not resumed")
+		}
+	} else {
+		q.outs = append(q.outs, "fail t="+ev)
+		if sh != nil && useCache {
+			q.tags = append(q.tags, "seq/fail-with-cached-session")
+		}
+	}
+	// bookkeeping for the next connection
+	switch ev {
+	case "p":
+		if !vd.done || !k.ticketsOn || len(tkeys) == 0 {
+			addViol(i, "a session was stored although the handshake failed or the server disables tickets")
+			q.sh = nil
+		} else {
+			q.sh = &shadow{vers: vd.vers, suite: vd.suite, key: tkeys[0]}
+		}
+		q.tags = append(q.tags, "seq/ticket-stored")
+	case "d":
+		q.sh = nil
+		q.tags = append(q.tags, "seq/ticket-dropped")
+	}
+	q.prevIdent, q.prevDone, q.prevTix = k.ident, vd.done, useCache && k.ticketsOn && len(tkeys) > 0
+}
+
 func execSeq(f []string) zv.Out {
 	n := atoi(f[2])
 	if n < 1 || len(f) != 3+n*stepFields {
 		panic("bad seq line")
 	}
-	cache := &recCache{m: map[string]*tls.ClientSessionState{}}
-	var outs, tags []string
-	viol := ""
-	addViol := func(i int, s string) {
-		if viol == "" {
-			viol = fmt.Sprintf("connection %d of %d: %s", i+1, n, s)
-		}
-	}
-	var sh *shadow   // what the cache holds before the current connection
-	var prevStep string
-	prevDone, prevTickets := false, false
+	q := newSeqRun(n)
 	for i := 0; i < n; i++ {
 		sf := f[3+i*stepFields : 3+(i+1)*stepFields]
 		cfg := parseNeg(sf[:14])
-		useCache := sf[14] == "c"
 		var tkeys []int
 		if sf[15] != "x" {
 			l, _ := parseList(sf[15])
@@ -97,9 +245,6 @@ func execSeq(f []string) zv.Out {
 			}
 		}
 		ccfg, scfg := cfg.configs()
-		if useCache {
-			ccfg.ClientSessionCache = cache
-		}
 		if tkeys == nil {
 			scfg.SessionTicketsDisabled = true
 		} else {
@@ -109,113 +254,10 @@ func execSeq(f []string) zv.Out {
 			}
 			scfg.SetSessionTicketKeys(ks)
 		}
-		p0, d0 := cache.counts()
-		res := tlsrig.Handshake(ccfg, scfg, tlsrig.Opts{KeepOpen: true, Timeout: 12 * time.Second})
-		vd := judge(cfg, ccfg, scfg, res)
-		appData := ""
-		if vd.done {
-			// one byte of application data server → client: the record layer works with the (possibly resumed)
-			// keys, and the client gets to process post-handshake messages (the TLS 1.3 NewSessionTicket)
-			done := make(chan struct{})
-			go func() {
-				defer close(done)
-				res.Server.Conn.Write([]byte{0x5a})
-			}()
-			res.Client.Conn.SetReadDeadline(time.Now().Add(8 * time.Second))
-			var b [1]byte
-			if k, err := res.Client.Conn.Read(b[:]); err != nil || k != 1 || b[0] != 0x5a {
-				appData = fmt.Sprintf("the handshake completed but application data does not flow: n=%d err=%v", k, err)
-			}
-			<-done
-		}
-		res.Client.Conn.Close()
-		res.Server.Conn.Close()
-		if vd.viol != "" {
-			addViol(i, vd.viol)
-		}
-		if appData != "" {
-			addViol(i, appData)
-		}
-		p1, d1 := cache.counts()
-		ev := "k"
-		if p1 > p0 {
-			ev = "p"
-		} else if d1 > d0 {
-			ev = "d"
-		}
-		step := strings.Join(sf, " ")
-		for _, t := range vd.tags {
-			if !strings.HasPrefix(t, "key=") {
-				tags = append(tags, "seq/"+t)
-			}
-		}
-		if vd.done {
-			c, s := res.Client.State, res.Server.State
-			r := 0
-			if c.DidResume {
-				r = 1
-			}
-			outs = append(outs, fmt.Sprintf("%s r=%d t=%s", vd.out, r, ev))
-			if c.DidResume != s.DidResume {
-				addViol(i, fmt.Sprintf("endpoints disagree on the resumption status: client DidResume=%v server DidResume=%v", c.DidResume, s.DidResume))
-			}
-			if s.DidResume || c.DidResume {
-				tags = append(tags, fmt.Sprintf("seq/resumed/v=%x", c.Version))
-				// a resumed connection continues the session the client's cache holds: authentic ticket under a key
-				// the server lists NOW, same version, same suite (TLS 1.3: same KDF hash); that the suite is offered by
-				// the client and enabled by the server's CURRENT configuration is judge()'s "enabled on both sides"
-				switch {
-				case sh == nil:
-					addViol(i, "connection resumed although the client's cache held no session")
-				case !useCache:
-					addViol(i, "connection resumed although this client configuration has no session cache")
-				case tkeys == nil:
-					addViol(i, "server resumed a session although its configuration disables session tickets")
-				case !containsInt(tkeys, sh.key):
-					addViol(i, fmt.Sprintf("server resumed a ticket sealed under key %d, its current keys are %v", sh.key, tkeys))
-				case sh.vers != c.Version:
-					addViol(i, fmt.Sprintf("resumed connection has version %x, the session was established with %x", c.Version, sh.vers))
-				case c.Version != tls.VersionTLS13 && sh.suite != c.CipherSuite:
-					addViol(i, fmt.Sprintf("resumed connection uses suite %x, the session was established with %x", c.CipherSuite, sh.suite))
-				case c.Version == tls.VersionTLS13 && isSHA384(sh.suite) != isSHA384(c.CipherSuite):
-					addViol(i, fmt.Sprintf("TLS 1.3 connection with suite %x resumed a PSK issued under suite %x (different hash)", c.CipherSuite, sh.suite))
-				case c.Version != tls.VersionTLS13 && !fitsKey(c.CipherSuite, cfg.key, overlap(ccfg.CurvePreferences, scfg.CurvePreferences)):
-					addViol(i, fmt.Sprintf("server resumed suite %x, which is not usable with its current %s key / curve configuration", c.CipherSuite, cfg.key))
-				}
-			} else {
-				tags = append(tags, fmt.Sprintf("seq/full/v=%x", c.Version))
-				if sh != nil && useCache {
-					tags = append(tags, "seq/fallback-to-full")
-				}
-			}
-			// unchanged configurations on both sides: the session just established (or continued) must be resumed
-			if i > 0 && step == prevStep && prevDone && prevTickets && !(c.DidResume && s.DidResume) {
-				addViol(i, "same configurations as the previous connection (cache and tickets on), yet the session was not resumed")
-			}
-		} else {
-			outs = append(outs, "fail t="+ev)
-			if sh != nil && useCache {
-				tags = append(tags, "seq/fail-with-cached-session")
-			}
-		}
-		// bookkeeping for the next connection
-		switch ev {
-		case "p":
-			if !vd.done || tkeys == nil {
-				addViol(i, "a session was stored although the handshake failed or the server disables tickets")
-				sh = nil
-			} else {
-				sh = &shadow{vers: vd.vers, suite: vd.suite, key: tkeys[0]}
-			}
-			tags = append(tags, "seq/ticket-stored")
-		case "d":
-			sh = nil
-			tags = append(tags, "seq/ticket-dropped")
-		}
-		prevStep, prevDone, prevTickets = step, vd.done, useCache && tkeys != nil
+		q.step(i, conn{ident: strings.Join(sf, " "), cfg: cfg, ccfg: ccfg, scfg: scfg, eff: func() *tls.Config { return scfg },
+			useCache: sf[14] == "c", tkeys: tkeys, ticketsOn: tkeys != nil})
 	}
-	tags = append(tags, fmt.Sprintf("seq/len=%d", n))
-	return zv.Out{Go: strings.Join(outs, " | "), Viol: viol, Tags: tags}
+	return q.out()
 }
 
 // fitsKey: the suite's key exchange can be carried out with a server key of this type (the version-independent
@@ -271,11 +313,18 @@ func optList(l []uint16) string {
 	return showList(l)
 }
 
-func (s stepG) String() string {
-	cch, tk := "n", "x"
+// head: the 14 negotiation fields and the client-cache field
+func (s stepG) head() string {
+	cch := "n"
 	if s.cache {
 		cch = "c"
 	}
+	return fmt.Sprintf("%d %d %s %d %s %s %d %d %s %d %s %s %s n %s", s.cmin, s.cmax, optList(s.cs), s.force, optList(s.cc), showList(s.ca),
+		s.smin, s.smax, optList(s.ss), s.prefer, optList(s.sc), showList(s.sa), s.key, cch)
+}
+
+func (s stepG) String() string {
+	tk := "x"
 	if s.tk != nil {
 		x := make([]string, len(s.tk))
 		for i, k := range s.tk {
@@ -283,8 +332,7 @@ func (s stepG) String() string {
 		}
 		tk = strings.Join(x, ",")
 	}
-	return fmt.Sprintf("%d %d %s %d %s %s %d %d %s %d %s %s %s n %s %s", s.cmin, s.cmax, optList(s.cs), s.force, optList(s.cc), showList(s.ca),
-		s.smin, s.smax, optList(s.ss), s.prefer, optList(s.sc), showList(s.sa), s.key, cch, tk)
+	return s.head() + " " + tk
 }
 
 func (s stepG) clone() stepG {
@@ -478,33 +526,10 @@ func genSeq(g *zv.Gen) {
 	// differing from its predecessor by a few random edits
 	ids := allIDs()
 	withT13 := append(append([]uint16{}, ids...), t13...)
-	keys := []string{"rsa", "ecdsa", "ed25519"}
 	vs := []int{0, 769, 770, 771, 772}
 	m := g.N(1500, 60000)
 	for i := 0; i < m; i++ {
-		s := stepG{key: keys[r.Intn(3)], cache: true, tk: []int{0}, prefer: r.Intn(2)}
-		s.cmax, s.smax = vs[r.Intn(5)], vs[r.Intn(5)]
-		if r.Chance(15) {
-			s.cmin = vs[r.Intn(5)]
-		}
-		if r.Chance(15) {
-			s.smin = vs[r.Intn(5)]
-		}
-		pool := append(usablePool(uint16(vmax(s.cmax, s.smax)), s.key), t13...)
-		if r.Chance(25) {
-			pool = withT13
-		}
-		if r.Chance(75) {
-			s.cs = subset(r, pool, 6)
-		}
-		if r.Chance(60) {
-			s.ss = subset(r, pool, 6)
-			for _, x := range s.cs {
-				if r.Chance(70) && !contains(s.ss, x) {
-					s.ss = append(s.ss, x)
-				}
-			}
-		}
+		s, pool := randomBase(r, withT13, t13)
 		steps := []stepG{s}
 		for k := 1 + r.Intn(3); k > 0; k-- {
 			s = s.clone()
@@ -515,6 +540,36 @@ func genSeq(g *zv.Gen) {
 		}
 		emitSeq(g, steps...)
 	}
+}
+
+// randomBase: a random, mostly connectable pair of configurations (cache and tickets on) and the suite pool it draws from
+func randomBase(r *zv.Rng, withT13, t13 []uint16) (stepG, []uint16) {
+	keys := []string{"rsa", "ecdsa", "ed25519"}
+	vs := []int{0, 769, 770, 771, 772}
+	s := stepG{key: keys[r.Intn(3)], cache: true, tk: []int{0}, prefer: r.Intn(2)}
+	s.cmax, s.smax = vs[r.Intn(5)], vs[r.Intn(5)]
+	if r.Chance(15) {
+		s.cmin = vs[r.Intn(5)]
+	}
+	if r.Chance(15) {
+		s.smin = vs[r.Intn(5)]
+	}
+	pool := append(usablePool(uint16(vmax(s.cmax, s.smax)), s.key), t13...)
+	if r.Chance(25) {
+		pool = withT13
+	}
+	if r.Chance(75) {
+		s.cs = subset(r, pool, 6)
+	}
+	if r.Chance(60) {
+		s.ss = subset(r, pool, 6)
+		for _, x := range s.cs {
+			if r.Chance(70) && !contains(s.ss, x) {
+				s.ss = append(s.ss, x)
+			}
+		}
+	}
+	return s, pool
 }
 
 func indexOf(l []uint16, x uint16) int {
